@@ -236,9 +236,19 @@ def mutation_serial(case, events, data, root_order):
                 finished = min(h.get("R", inf), h.get("C", inf))
             if finished < nj:
                 continue
-            cancelled = min(h.get("C", inf), h.get("X", inf)) < nj
+            cancel_at = min(h.get("C", inf), h.get("X", inf))
+            cancelled = cancel_at < nj
             detail = {"awaitable": path, "kind": h["kind"], "started": rkj, "cancelled_before": cancelled}
-            if cancelled and nested_gather(seq, h, nj):
+            # its root field had completed before it was cancelled (a later root field was already
+            # running): it was abandoned work then, cancelled later by a failing gather INSIDE the
+            # abandoned region - the background finding, not a gather that does not wait
+            owner = order.index(path[0]) if path[0] in order else -1
+            abandoned_first = cancelled and is_abandoned(data, path) and any(
+                nk < cancel_at for nk, rkk in starts[owner + 1 : j]
+            )
+            if abandoned_first:
+                background.append(detail)
+            elif cancelled and nested_gather(seq, h, nj):
                 out.append((NESTED_FP, f"root field {rkj} started before a cancelled resolver below a nested gather of root field {path[0]} had finished unwinding (a sibling in the same nested gather had finished)", detail))
             elif cancelled:
                 out.append(("mutation-overlap", f"root field {rkj} started before a cancelled resolver of root field {path[0]} had finished unwinding", detail))
